@@ -155,7 +155,8 @@ TSessEnd == /\ Live("sess_end")
             /\ LET s == E.sess
                    peer == IF Has(sess, s) THEN sess[s].peer ELSE ""
                    other == \E t \in (DOMAIN sess) \ {s} : sess[t].peer = peer /\ sess[t].phase # "closed"
-                   d == IF peer # "" /\ Has(ns.conn, peer) /\ ~other THEN {"session_ended_connection_kept"} ELSE {}
+                   d == (IF peer # "" /\ Has(ns.conn, peer) /\ ~other THEN {"session_ended_connection_kept"} ELSE {})
+                        \cup (IF Has(sess, s) /\ sess[s].owed # "" THEN {"ended_without_owed_rejection_" \o sess[s].owed} ELSE {})
                IN /\ sess' = IF Has(sess, s) THEN [sess EXCEPT ![s].phase = "closed"] ELSE sess
                   /\ pend' = Del(pend, s)
                   /\ UNCHANGED <<ns, prelay, lastOwn, duty, ads>> /\ Advance(d)
